@@ -107,7 +107,18 @@ def l3(rep, pa, rng, count):
         al = c.get_best_alignment(d)
         tuples = [list(ua.n_tuple) for ua in al.unitary_alignments]
         for _ in range(rng.randint(0, 2)):
-            kind = rng.choice(["drop", "dup_tuple", "dup_unit", "move", "none", "reslot", "reslot"])
+            kind = rng.choice(["drop", "dup_tuple", "dup_unit", "move", "none", "reslot", "reslot", "foreign_extra"])
+            if kind == "foreign_extra":
+                # one more unitary alignment holding a unit in ANOTHER annotator's slot, everything else untouched: every
+                # (annotator, unit) of the continuum still occurs exactly once - both checks must succeed
+                t = rng.choice(tuples)
+                reals = [(i, sl) for i, sl in enumerate(t) if sl[1] is not None]
+                if reals and len(t) >= 2:
+                    i, sl = rng.choice(reals)
+                    j = rng.choice([k for k in range(len(t)) if k != i])
+                    new = [(a, None) for a, _ in t]
+                    new[j] = (t[j][0], sl[1])
+                    tuples.append(new)
             if kind == "reslot":
                 # a unit placed in ANOTHER annotator's slot (swapped with what was there): its own (annotator, unit) goes missing
                 t = rng.choice(tuples)
@@ -139,6 +150,12 @@ def l3(rep, pa, rng, count):
                     tuples.append(new)
         rng.shuffle(tuples)
         tuples = [t for t in tuples if any(u is not None for _, u in t)]
+        # a pair FOREIGN to the continuum (a unit under another annotator) occurring twice is outside the statement, which
+        # speaks of the continuum's own (annotator, unit) pairs only: not generated
+        own = {(a, u) for a, u in c}
+        foreign_pairs = [(a, u) for t in tuples for a, u in t if u is not None and (a, u) not in own]
+        if len(foreign_pairs) != len(set(foreign_pairs)):
+            continue
         if not tuples:
             continue
         for cls, mode in ((pa.Alignment, "partition"), (pa.alignment.SoftAlignment, "soft")):
@@ -156,6 +173,8 @@ def l3(rep, pa, rng, count):
     rep.traces += len(recs)
     for i, r in enumerate(recs):
         bad = set(verdicts.get(i, []))
+        # the statement, literally: success iff every (annotator, unit) OF THE CONTINUUM occurs exactly once / at least once;
+        # a unit that also sits in another annotator's slot is not a pair of the continuum and changes nothing
         spec_ok = ("ObsPartition" not in bad) if r["mode"] == "partition" else ("ObsCover" not in bad)
         foreign = any(slot[1] == -2 for t in r["tuples"] for slot in t)
         # with a unit sitting in another annotator's slot the statement only fixes success / failure (the soft check fails with
